@@ -311,7 +311,7 @@ def native_replay(which, vals):
     except Exception:
         ns_user = None
     for (nn, bb) in cands:
-        for ns in ([None] if ns_user is None else [None, min(max(ns_user, 1), nn), max(1, nn // 2)]):
+        for ns in ([None] if ns_user is None else [None, min(max(ns_user, 1), nn), max(1, nn // 2)]) + (["rar_pool_exhausted"] if "inside_batch" in which else []):
             m = _native_monitor(which, nn, bb, ns)
             if m:
                 return m
@@ -340,8 +340,15 @@ def _native_monitor(which, nn, bb, ns_user=None):
         ix = lambda g: int(g.curr_time_idx)
     elif "inside_batch" in which:
         dim_ = 2 if "dim=2" in which else 1
-        g = CubicMeshPDEStatio(key=key, n=nn, nb=None, omega_batch_size=bb, omega_border_batch_size=None, dim=dim_, min_pts=(0.0,) * dim_, max_pts=(1.0,) * dim_,
-                               n_start=ns_user)
+        if ns_user == "rar_pool_exhausted":
+            # a refining generator whose pre-allocated pool is entirely in use (n_start == n): an epoch is a pass over all n
+            g = CubicMeshPDEStatio(key=key, n=nn, nb=None, omega_batch_size=bb, omega_border_batch_size=None, dim=dim_, min_pts=(0.0,) * dim_,
+                                   max_pts=(1.0,) * dim_, n_start=nn,
+                                   rar_parameters={"start_iter": 0, "update_every": 1, "sample_size_omega": 4, "selected_sample_size_omega": 2})
+            ns_user = None
+        else:
+            g = CubicMeshPDEStatio(key=key, n=nn, nb=None, omega_batch_size=bb, omega_border_batch_size=None, dim=dim_, min_pts=(0.0,) * dim_, max_pts=(1.0,) * dim_,
+                                   n_start=ns_user)
         get = lambda g: g.inside_batch()
         st = lambda g: np.asarray(g.omega)[:, -1]
         full = lambda g: np.asarray(g.omega)
